@@ -453,3 +453,59 @@ Lemma get_critical_section :
   (exists pre, poolPutEvents = pre ++ [("call", "p.mtx.Lock"); ("defer", "p.mtx.Unlock"); ("call", "uint64");
      ("if", "uint64(sz) >= p.usedTotal"); ("else", ""); ("call", "uint64"); ("endif", "")]%string).
 Proof. split; [reflexivity|]. eexists (firstn 9 poolPutEvents). reflexivity. Qed.
+
+(* ---- E. Put only after the receive goroutine has stopped ------------------------------------ *)
+
+Lemma no_write_when_stopped : forall fuel sched step closer writes b,
+  write_after_put b (trun_close fuel sched step closer writes true) = false.
+Proof.
+  induction fuel as [|f IH]; intros sched step closer writes b; cbn [trun_close]; [reflexivity|].
+  destruct closer as [|a r].
+  - destruct (sched step); reflexivity.
+  - destruct a; destruct (sched step); cbn [write_after_put]; apply IH.
+Qed.
+
+Lemma fixed_from_wait : forall fuel sched step writes stopped,
+  write_after_put false (trun_close fuel sched step [CWait; CPut; CCloseSend] writes stopped) = false.
+Proof.
+  induction fuel as [|f IH]; intros sched step writes stopped; cbn [trun_close]; [reflexivity|].
+  destruct stopped.
+  - destruct (sched step); cbn [write_after_put]; apply no_write_when_stopped.
+  - destruct (sched step); destruct writes as [|w]; cbn [write_after_put orb].
+    + apply IH.
+    + apply IH.
+    + apply IH.
+    + apply IH.
+Qed.
+
+(* Close as written in the source (cancel, wait for the receive goroutine, Put, CloseSend): for
+   EVERY interleaving with a receive goroutine that still handles any number of messages, nothing
+   writes into the buffer after it went back to the pool *)
+Lemma put_after_receiver fuel sched writes :
+  write_after_put false (trun_close fuel sched 0 close_fixed writes false) = false.
+Proof.
+  unfold close_fixed. generalize 0%nat as step. revert writes.
+  induction fuel as [|f IH]; intros writes step; cbn [trun_close]; [reflexivity|].
+  destruct (sched step); destruct writes as [|w]; cbn [write_after_put orb].
+  - apply fixed_from_wait.
+  - apply fixed_from_wait.
+  - apply no_write_when_stopped.
+  - apply IH.
+Qed.
+
+(* with the Put moved before the wait, the schedule "closer, closer, then the receiver" writes
+   into a buffer that is already pooled (and may be another request's by then) *)
+Lemma early_put_refuted :
+  trun_close 10 (fun s => Nat.ltb s 2) 0 close_early_put 1 false
+    = [TAct CCancel; TAct CPut; TWrite; TStop; TAct CCloseSend; TAct CWait] /\
+  write_after_put false (trun_close 10 (fun s => Nat.ltb s 2) 0 close_early_put 1 false) = true.
+Proof. split; reflexivity. Qed.
+
+(* tie T: the statements of the two Close methods, in source order *)
+Lemma close_stmts_in_source :
+  lazyCloseStmts = ["l.bufferedResponsesMtx.Lock()"; "l.closeSeries()"; "l.rb.close()"; "l.noMoreData = true";
+                    "l.dataOrFinishEvent.Signal()"; "l.bufferedResponsesMtx.Unlock()"; "<-l.donec";
+                    "l.shardMatcher.Close()"; "_ = l.cl.CloseSend()"]%string /\
+  eagerCloseStmts = ["if l.closeSeries != nil { l.closeSeries() }"; "l.wg.Wait()"; "l.shardMatcher.Close()";
+                     "_ = l.cl.CloseSend()"]%string.
+Proof. split; reflexivity. Qed.
